@@ -16,6 +16,7 @@ pub struct Rec {
     stats_path: String,
     pub hist: BTreeMap<String, u64>,
     pub oracle_failures: Vec<String>,
+    alias_n: u64,
     pub cases: u64,
     pub lines: u64,
     pub samples: Vec<String>,
@@ -31,6 +32,7 @@ impl Rec {
             stats_path: format!("{}.stats.json", ops_path),
             hist: BTreeMap::new(),
             oracle_failures: Vec::new(),
+            alias_n: 0,
             cases: 0,
             lines: 0,
             samples: Vec::new(),
@@ -42,6 +44,27 @@ impl Rec {
     }
     /// send one op; returns the implementation's answer
     pub fn op(&mut self, line: &str) -> String {
+        // every third use of these goes through the api crate's own entry point instead of the provider's
+        // (`Value::get_interned_obj_prop`, `Value::intern_utf8_str`, `Context::input_get`,
+        // `Context::write_interned_utf8_str`): same operation for the model, another path through the code
+        self.alias_n += 1;
+        let aliased;
+        let line = if self.alias_n % 3 == 0 {
+            aliased = if let Some(r) = line.strip_prefix("iprop ") {
+                format!("aiprop {}", r)
+            } else if let Some(r) = line.strip_prefix("intern ") {
+                format!("vintern {}", r)
+            } else if line == "root" {
+                "aroot".to_string()
+            } else if let Some(r) = line.strip_prefix("w istr ") {
+                format!("aw istr {}", r)
+            } else {
+                line.to_string()
+            };
+            aliased.as_str()
+        } else {
+            line
+        };
         // the line goes to the operations file before it runs: if the real code takes the whole process down
         // (a wild copy, an abort), the last line of the file is the operation that did it
         writeln!(self.ops, "{}", line).unwrap();
@@ -226,7 +249,8 @@ fn read_history(rec: &mut Rec, rng: &mut Rng, n_ops: usize, interned: &[(usize, 
         }
         if r < 8 || hs.is_empty() {
             let sc = *rng.pick(SCALAR_SCOPES);
-            let line = match rng.below(6) {
+            let line = match rng.below(7) {
+                6 => format!("iprop {} {}", sc, interned.first().map(|x| x.0).unwrap_or(0)),
                 0 => format!("idx {} {}", sc, rng.below(3)),
                 1 => format!("key {} {}", sc, rng.below(3)),
                 2 => format!("prop {} {}", sc, hex0(b"a")),
@@ -864,6 +888,44 @@ fn size_bucket(n: usize) -> &'static str {
 }
 
 fn gen_c11(rec: &mut Rec, rng: &mut Rng, scale: u64) {
+    // long values under names that are prefixes / extensions of one another, in every key order, looked up by
+    // name before and after the other entries were visited (and names that are absent but prefix a key)
+    {
+        let long: Vec<u8> = (0..16386usize).map(|i| b'a' + (i % 26) as u8).collect();
+        let mut sval = vec![0xdau8];
+        sval.extend_from_slice(&(long.len() as u16).to_be_bytes());
+        sval.extend_from_slice(&long);
+        let mut aval = vec![0xdcu8];
+        aval.extend_from_slice(&(16386u16).to_be_bytes());
+        aval.extend(std::iter::repeat(0x01u8).take(16386));
+        let entries: Vec<(&[u8], Vec<u8>)> = vec![(b"items_total", vec![0x02]), (b"items", aval), (b"it", sval), (b"title", vec![0xa1, b'z'])];
+        for perm in [[0usize, 1, 2, 3], [1, 0, 2, 3], [2, 1, 0, 3], [3, 2, 1, 0], [0, 2, 1, 3], [1, 2, 0, 3]] {
+            for visit_first in [false, true] {
+                rec.case("c11");
+                rec.bump("c11:prefix-names");
+                let mut doc = vec![0x84u8];
+                for &i in &perm {
+                    mp_str(&mut doc, entries[i].0);
+                    doc.extend_from_slice(&entries[i].1);
+                }
+                rec.op(&format!("init {}", hex0(&doc)));
+                rec.op("root");
+                if visit_first {
+                    rec.op("idx h0 3");
+                }
+                for name in [&b"items"[..], b"it", b"items_total", b"item", b"i", b"items", b"title", b"titl", b"it"] {
+                    let a = rec.op(&format!("prop h0 {}", hex0(name)));
+                    if let Some(h) = a.split_whitespace().nth(1) {
+                        if a.starts_with("arr") || a.starts_with("str") {
+                            rec.op(&format!("len {}", h));
+                            rec.op(&format!("a.len {}", h));
+                        }
+                    }
+                    rec.op(&format!("aprop h0 {}", hex0(name)));
+                }
+            }
+        }
+    }
     let mut sizes: Vec<usize> = (0..=40).collect();
     sizes.extend_from_slice(&[16381, 16382, 16383, 16384, 16385, 65535, 65536, 70000]);
     let reps = if scale > 1 { 2 } else { 1 };
@@ -1789,6 +1851,29 @@ fn gen_deint(rec: &mut Rec, rng: &mut Rng, random: u64) {
 // ---------------------------------------------------------------------------------- interning
 
 fn gen_intern(rec: &mut Rec, rng: &mut Rng, cases: u64) {
+    // many cached handles on one thread, loaded round after round in different orders: whatever the cache is
+    // (a map, a table with fewer slots than handles), every handle answers the id it answered the first time
+    for (label, n) in [("cached", if cases > 1000 { 5000usize } else { 700 }), ("cacheds", 300)] {
+        rec.case("c12");
+        rec.bump("many-cached-handles");
+        rec.op("init c0");
+        let names: Vec<String> = (0..n).map(|i| match i % 4 {
+            0 => format!("f{}", i),
+            1 => format!("field_{}", i),
+            2 => format!("{}Code", (b'a' + (i % 26) as u8) as char).repeat(1 + i % 3) + &i.to_string(),
+            _ => format!("k{}k", i * 7),
+        }).collect();
+        for round in 0..3 {
+            for j in 0..n {
+                let i = match round { 0 => j, 1 => n - 1 - j, _ => (j * 7 + 3) % n };
+                rec.op(&format!("{} {}", label, hex0(names[i].as_bytes())));
+                if round == 0 && j % 5 == 4 {
+                    // interleave with the previous handle: A, B, A
+                    rec.op(&format!("{} {}", label, hex0(names[i - 1].as_bytes())));
+                }
+            }
+        }
+    }
     for ci in 0..cases {
         rec.case("c12");
         // document with known keys so lookups by id can hit
@@ -2025,6 +2110,33 @@ fn gen_invocations(rec: &mut Rec, rng: &mut Rng, cases: u64) {
                 *acts = pre;
             }
         }
+        let mut via_json = false;
+        if rng.chance(1, 6) {
+            // invocations started through the api crate's `Context::new_with_input` with inputs that are equal as
+            // JSON values or nearly so (0.0 / -0.0, 1 / 1.0, the same keys with another value, the very same
+            // document twice): each one must see its own input
+            via_json = true;
+            let variants: [&[u8]; 6] = [
+                &[0x82, 0xa1, b'a', 0xcb, 0, 0, 0, 0, 0, 0, 0, 0, 0xa1, b'b', 0x01],
+                &[0x82, 0xa1, b'a', 0xcb, 0x80, 0, 0, 0, 0, 0, 0, 0, 0xa1, b'b', 0x01],
+                &[0x82, 0xa1, b'a', 0x00, 0xa1, b'b', 0x01],
+                &[0x82, 0xa1, b'a', 0xcb, 0x3f, 0xf0, 0, 0, 0, 0, 0, 0, 0xa1, b'b', 0x01],
+                &[0x82, 0xa1, b'a', 0x01, 0xa1, b'b', 0x01],
+                &[0x82, 0xa1, b'a', 0xcb, 0, 0, 0, 0, 0, 0, 0, 0, 0xa1, b'b', 0x02],
+            ];
+            let first = rng.below(6) as usize;
+            for (j, (doc, acts)) in invs.iter_mut().enumerate() {
+                let v = match j % 3 {
+                    0 => first,
+                    1 => first ^ 1,
+                    _ => rng.below(6) as usize,
+                };
+                *doc = variants[v].to_vec();
+                let mut pre = vec!["root".to_string(), format!("prop h0 {}", hex0(b"a")), format!("prop h0 {}", hex0(b"b")), "idx h0 0".to_string()];
+                pre.append(acts);
+                *acts = pre;
+            }
+        }
         let early: Vec<String> = if rng.chance(1, 8) {
             // calls made on the thread before its first initialisation
             let na = rng.range(1, 6) as usize;
@@ -2050,7 +2162,7 @@ fn gen_invocations(rec: &mut Rec, rng: &mut Rng, cases: u64) {
                     rec.op(&format!("intern {}", hex0(&k)));
                 }
             }
-            rec.op(&format!("init {}", hex0(doc)));
+            rec.op(&format!("{} {}", if via_json { "ainit" } else { "init" }, hex0(doc)));
             let mut answers = Vec::new();
             for a in acts {
                 answers.push(rec.op(a));
@@ -2263,6 +2375,40 @@ fn gen_threads(rec: &mut Rec, rng: &mut Rng, cases: u64, thorough: bool) {
         rec.case("c14");
         let obs = run_schedule(rec, &scripts, &[0, 1, 0, 1, 0, 0, 0, 1, 1, 1]);
         check_solo(rec, &scripts, &obs, "schedule A.internreq B.internreq A.interncopy");
+    }
+    // long values (their length is not in the handle: every query goes back to the provider) held by A while
+    // B starts invocations, reads, writes and interns in between
+    for (kind, n) in [(0u64, 16383usize), (0, 20000), (1, 16384), (1, 16390)] {
+        let big = mp::gen_big(rng, n, kind);
+        let mut a = vec![format!("init {}", hex0(&big)), "root".to_string(), "len h0".to_string(), "a.len h0".to_string()];
+        if kind == 0 {
+            a.push("str h0".to_string());
+            a.push("a.str h0".to_string());
+        } else {
+            a.push(format!("idx h0 {}", n - 1));
+            a.push("len h0".to_string());
+        }
+        a.push("a.len h0".to_string());
+        let b = vec![
+            format!("init {}", hex0(&gen_doc(rng, false))),
+            "root".to_string(),
+            format!("init {}", hex0(&[0x92, 0x01, 0xa1, b'x'])),
+            "root".to_string(),
+            "idx h0 1".to_string(),
+            "w null".to_string(),
+            "fin".to_string(),
+        ];
+        let scripts = vec![a.clone(), b.clone()];
+        for sched in [
+            vec![0usize, 0, 1, 0, 1, 0, 1, 0, 1, 0, 1, 0, 1, 1, 0, 0],
+            vec![0, 0, 0, 1, 1, 1, 0, 0, 1, 1, 1, 1, 0, 0, 0, 0],
+            vec![1, 0, 0, 1, 0, 1, 1, 0, 1, 1, 0, 1, 0, 0, 0, 0],
+        ] {
+            rec.case("c14");
+            rec.bump("long-value-across-threads");
+            let obs = run_schedule(rec, &scripts, &sched);
+            check_solo(rec, &scripts, &obs, "long value held while another thread starts invocations");
+        }
     }
     // random schedules
     for _ in 0..cases {
